@@ -481,6 +481,10 @@ def _history_table(prog: Program, ctx: Ctx) -> None:  # noqa: PLR0912,PLR0915
                 new_val = container(coll, tuple(tgt_path.split(".")))
                 for apath, a in before_regs.items():
                     if a.attrs.get("_target") is not new_val and a is not new_val and not _self_cycle(apath, new_val, it):
+                        # a replacement that is itself an alias with an unresolvable chain cannot be linked to: the alias then stays
+                        # unresolved, pointing at the replacement's path (all-or-nothing, C06)
+                        if a.attrs.get("_target") is None and a.attrs.get("target_path") == it.getattr(new_val, "path") and _broken(new_val, it):
+                            continue
                         problems.append(f"alias {apath} still targets the replaced object after `{label}`")
             if problems:
                 problem = problems[0]
@@ -546,6 +550,17 @@ def _missing(model: dict, label: str) -> bool:
         if not isinstance(d, dict) or p not in d:
             return True
         d = d[p]
+    return False
+
+
+def _broken(val, it) -> bool:
+    """The value is an alias whose chain cannot be resolved."""
+    from sa.absint import Raised
+
+    try:
+        it.getattr(val, "final_target")
+    except Raised as r:
+        return r.exc in ("AliasResolutionError", "CyclicAliasError")
     return False
 
 
